@@ -43,7 +43,7 @@ def parse_into_store(data, dataset: bool):
     from rdflib.graph import Dataset, Graph  # noqa: PLC0415
 
     store = Dataset() if dataset else Graph()
-    store.parse(io.BytesIO(data), format="jelly")
+    store.parse((io.BytesIO(data) if isinstance(data, (bytes, bytearray)) else data), format="jelly")
     return impl._items_of_rdflib_store(store)
 
 
@@ -176,6 +176,8 @@ def main(tier: str) -> int:
                     "parse_jelly_to_graph": _safe(impl.parse, "rdflib", data, "to_graph"),
                     "parse_jelly_flat": _safe(impl.parse, "rdflib", data, "flat"),
                 }
+                for label, src in impl.other_sources(data):
+                    case["back"]["Graph.parse<-" + label] = _safe(parse_into_store, src, dataset)
     # a graph large enough to assign the LAST id of 4096-entry tables (and to cross the one-byte varint limit of ids)
     for preset, nn in (((4096, 150, 32), 4200), ((129, 16, 4), 300)):
         I_ = lambda x: ("iri", x)  # noqa: E731
